@@ -142,6 +142,15 @@ func c05Scenario(name string, p map[string]any) *schedScenario {
 			}()
 		}
 		switch extra {
+		case "stalled-writer":
+			// the peer stops reading for 3.5 s (well inside any write deadline) while the senders fill the queue, then
+			// reads on: every number handed out is on the wire, in order
+			w.hold = true
+			go func() {
+				time.Sleep(3500 * time.Millisecond)
+				w.hold = false
+				w.release <- struct{}{}
+			}()
 		case "testreq":
 			w.h.ServeIncoming(w.msg("1", "112=concurrent"))
 		case "reject":
@@ -158,7 +167,7 @@ func c05Scenario(name string, p map[string]any) *schedScenario {
 		obs.outs = w.take()
 		obs.self, obs.peer = w.self, w.peer
 		obs.n = G * M
-		obs.strict = extra != "hb"
+		obs.strict = extra != "hb" && extra != "stalled-writer"
 		if extra == "same-object" && obs.shared != nil {
 			// the same object goes out through a second session with other identifiers
 			other := "ini"
@@ -407,7 +416,7 @@ func runC05(R *vlib.Out) {
 		}
 		cfgs = append(cfgs, cfg{role, 1, 2, 2, "none", bound}, cfg{role, 0, 3, 1, "none", bound},
 			cfg{role, 1, 2, 1, "testreq", bound}, cfg{role, 0, 2, 1, "reject", bound}, cfg{role, 1, 2, 1, "hb", bound},
-			cfg{role, 1, 3, 1, "slow-counter", bound}, cfg{role, 1, 2, 1, "second-session", bound}, cfg{role, 10, 2, 3, "same-object", bound}, cfg{role, 1, 1, 3, "same-object", bound})
+			cfg{role, 1, 3, 1, "slow-counter", bound}, cfg{role, 1, 2, 3, "stalled-writer", 0}, cfg{role, 1, 2, 1, "second-session", bound}, cfg{role, 10, 2, 3, "same-object", bound}, cfg{role, 1, 1, 3, "same-object", bound})
 	}
 	for i, c := range cfgs {
 		if vlib.Expired() {
